@@ -222,13 +222,22 @@ class HttpWebServerPlugin(HttpProtocolHandlerPlugin):
                     httpParserTypes.REQUEST_PARSER,
                 )
             self.pipeline_request.parse(raw)
-            if self.pipeline_request.is_complete:
+            while self.pipeline_request.is_complete:
+                # Bytes following this request belong to the next one
+                remainder = self.pipeline_request.buffer
+                self.pipeline_request.buffer = None
                 self.route.handle_request(self.pipeline_request)
                 if not self.pipeline_request.is_http_1_1_keep_alive:
                     raise HttpProtocolException(
                         'Pipelined request is not keep-alive, will tear down request...',
                     )
                 self.pipeline_request = None
+                if not remainder:
+                    break
+                self.pipeline_request = HttpParser(
+                    httpParserTypes.REQUEST_PARSER,
+                )
+                self.pipeline_request.parse(remainder)
 
     def on_response_chunk(self, chunk: List[memoryview]) -> List[memoryview]:
         self._response_size += sum(len(c) for c in chunk)
